@@ -476,6 +476,11 @@ class LinkAligned(LinkCollection):
                                   data2.pixel_component_ids[j]))
         self._links[:] = links
 
+    @classmethod
+    def __setgluestate__(cls, rec, context):
+        return cls(data1=context.object(rec['data1']),
+                   data2=context.object(rec['data2']))
+
 
 def functional_link_collection(function, labels1=None, labels2=None,
                                display=None, description=None):
